@@ -7,7 +7,9 @@ src/dtaidistance/dtw.py (Python `ast`) and emits lean/Dtaiverif/Generated/PyBand
                                 that encloses it, if any) and every integer subscript applied to the rolling buffer `dtw`;
   * warping_paths():            every assignment to `j_start`, `j_end`;
   * warping_paths_affinity():   every assignment to `j_start`, `j_end`;
-  * lb_keogh():                 every assignment to `imin_diff`, `imax_diff`, `imin`, `imax`.
+  * lb_keogh():                 every assignment to `imin_diff`, `imax_diff`, `imin`, `imax`;
+  * dp.py, dp():                the default of `window`, the range of the column loop `for j0 in range(lo, hi)` and the
+                                column of the read-out `d = scores[i1, <col>]` (the routine behind needleman_wunsch).
 
 Props/PyBand.lean proves that these functions are the band of the model (`Grid.jStart`, `Grid.jEnd`,
 `AffGrid.jStart`, …) and that every subscript of the rolling buffer stays inside the row it addresses, so a change of
@@ -26,7 +28,8 @@ OUT = os.path.join(os.path.dirname(os.path.dirname(os.path.abspath(__file__))), 
                    "PyBand.lean")
 FIELDS = ["i", "j", "r", "c", "window", "sc", "j_start", "j_end", "skip", "skipp", "length", "i0", "i1", "ii",
           "psi_1b", "psi_1e", "psi_2b", "psi_2e", "only_triu", "ic",
-          "imin_diff", "imax_diff", "imin", "imax"]
+          "imin_diff", "imax_diff", "imin", "imax", "window_is_none"]
+DP_SRC = os.path.join(REPO, "src", "dtaidistance", "dp.py")
 TARGETS = {"distance": ["length", "skip", "j_start", "j_end", "ic"],
            "warping_paths": ["j_start", "j_end"],
            "warping_paths_affinity": ["j_start", "j_end"],
@@ -68,6 +71,11 @@ def expr(e):
 
 def cond(e):
     """Python condition -> Lean Bool expression"""
+    if isinstance(e, ast.Compare) and len(e.ops) == 1 and isinstance(e.ops[0], ast.Is):
+        if isinstance(e.left, ast.Name) and e.left.id == "window" and isinstance(e.comparators[0], ast.Constant) \
+                and e.comparators[0].value is None:
+            return "decide (e.window_is_none ≠ 0)"
+        raise Unsupported("`is` comparison")
     if isinstance(e, ast.Compare) and len(e.ops) == 1:
         op = {ast.Gt: ">", ast.Lt: "<", ast.GtE: "≥", ast.LtE: "≤", ast.Eq: "=", ast.NotEq: "≠"}.get(type(e.ops[0]))
         if op is None:
@@ -188,6 +196,40 @@ def main():
         L.append("def distanceLoops : List (String × String × String) := [")
         L.append(",\n".join('  ("%s", "%s", "%s")' % (var, ast.unparse(lo), ast.unparse(hi)) for _l, var, lo, hi in loops))
         L.append("]")
+        L.append("")
+        # ---- dp.py: the generic dynamic-programming routine behind needleman_wunsch
+        dtree = ast.parse(open(DP_SRC).read())
+        dfn = find_func(dtree, "dp")
+        dcount = 0
+        for (nm, cd, val) in assignments(dfn, ["window"]):
+            L.append("/-- dp(): `window = %s`%s -/" % (ast.unparse(val), "" if cd is None else "  under `if %s`" % ast.unparse(cd)))
+            L.append("def dp_window_%d (e : Env) : Int := %s" % (dcount, expr(val)))
+            if cd is not None:
+                L.append("def dp_window_%d_cond (e : Env) : Bool := %s" % (dcount, cond(cd)))
+            index.append(("dp_window_%d" % dcount, ast.unparse(val), None if cd is None else ast.unparse(cd)))
+            dcount += 1
+        if dcount == 0:
+            raise Unsupported("no assignment to window in dp()")
+        dloops = [n for n in ast.walk(dfn) if isinstance(n, ast.For) and isinstance(n.target, ast.Name) and n.target.id == "j0"]
+        if len(dloops) != 1 or not (isinstance(dloops[0].iter, ast.Call) and len(dloops[0].iter.args) == 2):
+            raise Unsupported("dp(): expected exactly one column loop `for j0 in range(lo, hi)`")
+        lo, hi = dloops[0].iter.args
+        L.append("/-- dp(): `for j0 in range(%s, %s)` -/" % (ast.unparse(lo), ast.unparse(hi)))
+        L.append("def dp_cols_lo (e : Env) : Int := %s" % expr(lo))
+        L.append("def dp_cols_hi (e : Env) : Int := %s" % expr(hi))
+        index.append(("dp_cols", ast.unparse(lo), ast.unparse(hi)))
+        reads = []
+        for node in ast.walk(dfn):
+            if isinstance(node, ast.Assign) and len(node.targets) == 1 and isinstance(node.targets[0], ast.Name) \
+                    and node.targets[0].id == "d" and isinstance(node.value, ast.Subscript) \
+                    and isinstance(node.value.value, ast.Name) and node.value.value.id == "scores" \
+                    and isinstance(node.value.slice, ast.Tuple) and len(node.value.slice.elts) == 2:
+                reads.append(node.value.slice.elts[1])
+        if len(reads) != 1:
+            raise Unsupported("dp(): expected exactly one read-out `d = scores[i1, <col>]`")
+        L.append("/-- dp(): column of the read-out `d = scores[i1, %s]` -/" % ast.unparse(reads[0]))
+        L.append("def dp_readout_col (e : Env) : Int := %s" % expr(reads[0]))
+        index.append(("dp_readout_col", ast.unparse(reads[0]), None))
         L.append("")
         L.append("/-- the source text of every translated item, for the evidence and for pinning the number of items -/")
         L.append("def items : List (String × String × String) := [")
